@@ -189,8 +189,11 @@ impl<'a> SourceParser<'a> {
       if op != TokenOp::Comma {
         break;
       }
-      let additional_comments = self.consume();
+      let mut additional_comments = self.consume();
       if self.peek().1 == TokenContent::Operator(end_token) {
+        // Trailing comma: the comments before it become comments of the end token.
+        additional_comments.append(&mut self.pending_comments);
+        self.pending_comments = additional_comments;
         return collector;
       }
       collector.push(parser(self, additional_comments));
@@ -1187,7 +1190,7 @@ mod expression_parser {
             // This is common for both arrow function and tuple.
             let mut parameters_or_tuple_elements_cover = vec![start_id];
             while let Token(_, TokenContent::Operator(TokenOp::Comma)) = parser.peek() {
-              let id_comments = parser.consume();
+              let mut id_comments = parser.consume();
               if let Token(_, TokenContent::LowerId(_)) = parser.peek() {
                 let id = parser.parse_lower_id_with_comments(id_comments);
                 match parser.peek().1 {
@@ -1277,10 +1280,14 @@ mod expression_parser {
                   parser.peek(),
                   Token(_, TokenContent::Operator(TokenOp::RightParenthesis))
                 ) {
+                  // Trailing comma: the comments before it become comments of the right parenthesis.
+                  id_comments.append(&mut parser.pending_comments);
+                  parser.pending_comments = id_comments;
                   break;
                 }
                 // Non-id expression in tuple: (a, b, 42, ...)
-                let first_remaining = parse_expression(parser);
+                let first_remaining =
+                  parse_expression_with_additional_preceding_comments(parser, id_comments);
                 let tuple_elements: Vec<expr::E<()>> = parameters_or_tuple_elements_cover
                   .into_iter()
                   .map(|name| {
@@ -1631,8 +1638,11 @@ mod expression_parser {
     mut expressions: Vec<expr::E<()>>,
   ) -> expr::E<()> {
     while let Token(_, TokenContent::Operator(TokenOp::Comma)) = parser.peek() {
-      let comments = parser.consume();
+      let mut comments = parser.consume();
       if matches!(parser.peek(), Token(_, TokenContent::Operator(TokenOp::RightParenthesis))) {
+        // Trailing comma: the comments before it become comments of the right parenthesis.
+        comments.append(&mut parser.pending_comments);
+        parser.pending_comments = comments;
         break;
       }
       expressions.push(parse_expression_with_additional_preceding_comments(parser, comments));
